@@ -280,7 +280,9 @@ DialConnect ==
                                              !.top = IF refused /\ ~cfg.fallback THEN "dial" ELSE @,
                                              !.dead = refused /\ ~cfg.fallback]
           ELSE
-          IF refused /\ ~(cfg.fallback /\ cfg.policy = "opportunistic")   \* SetTLSPortPolicy: 587, fallback 25 only when opportunistic
+          \* SetTLSPortPolicy: 587, fallback 25 only when opportunistic - or (variant "stalefallback") left behind by an earlier,
+          \* opportunistic port policy when the policy was set afterwards (SetTLSPolicy keeps the ports)
+          IF refused /\ ~(cfg.fallback /\ (cfg.policy = "opportunistic" \/ cfg.variant = "stalefallback"))
           THEN obs' = o0 /\ cl' = [cl EXCEPT !.pc = "dialRet", !.top = "dial", !.dead = TRUE]
           ELSE LET o1 == Observe(o0, [ev |-> "open"]) IN
                IF DEV_NoDeadlineInDial \/ Raw THEN obs' = o1 /\ Goto("greeting")
